@@ -19,6 +19,17 @@ def increments_table(kind):
     """10 increments whose rows differ in every bit; 'vertical' adds +-2 g vertical force
     and irregular dt."""
     k = np.arange(N_ROWS)
+    if kind == 'slow':
+        # creeping platform: sub-millimetre motion per sample (anything the kernel might
+        # treat as 'unchanged since the last step' must still not depend on the call history)
+        dt = np.full(N_ROWS, 0.01)
+        times = 100.0 + np.concatenate([[0.0], np.cumsum(dt)])
+        theta = 1e-5 * np.stack([np.cos(0.7 * k + 0.2), -np.sin(1.1 * k + 0.5), 0.3 + 0.1 * k], axis=1)
+        dv = 1e-4 * np.stack([np.sin(0.9 * k + 0.1), -np.cos(0.6 * k + 0.3), np.sin(1.3 * k)], axis=1)
+        dv[:, 2] -= 9.81 * dt
+        inc = pd.DataFrame(np.hstack([dt[:, None], theta, dv]), index=pd.Index(times[1:], name='time'),
+                           columns=['dt', 'theta_x', 'theta_y', 'theta_z', 'dv_x', 'dv_y', 'dv_z'])
+        return times, inc
     if kind == 'vertical':
         dt = np.array([0.5, 0.25, 0.5, 1.0, 0.5, 0.5, 0.125, 0.5, 0.75, 0.5])
         az = -9.81 + 19.6 * np.sin(1.3 * k + 0.4)
@@ -36,7 +47,10 @@ def increments_table(kind):
     return times, inc
 
 
-def initial_pva(t0, vd):
+def initial_pva(t0, vd, kind='normal'):
+    if kind == 'slow':
+        return pd.Series([48.0, 11.0, 500.0, 0.004, 0.0005, vd * 1e-3, 0.3, -0.2, 85.0],
+                         index=COLS, name=t0)
     return pd.Series([-33.5, 151.25, 500.0, 40.0, -30.0, vd, 12.0, -7.0, 130.0],
                      index=COLS, name=t0)
 
@@ -77,7 +91,7 @@ class Explorer:
         self.strapdown = strapdown
         self.capacity, self.wa, self.kind = capacity, wa, kind
         self.times, self.inc = increments_table(kind)
-        self.pva0 = initial_pva(self.times[0], init_vd)
+        self.pva0 = initial_pva(self.times[0], init_vd, kind)
         self.set_ops = list(set_ops)
         self.chunk_ops = list(chunk_ops)
         self.max_dev = max_dev
